@@ -162,10 +162,19 @@ def run(run):
                 else:
                     run.bad("C09.T1", "run-dash/%s" % ch, "%s:%d" % (T.ascii_file, T.ascii[ch]["line"]), "%r should draw %s segments" % (ch, "dashed" if broken else "solid"))
 
+    merge_rules(run, "C09.M1")
+    m2_rules(run)
+    run.assume("is_collinear / Segment::contains_point float tolerances are not decided (long diagonals)")
+
+
+def merge_rules(run, R):
+    """Line::merge / can_merge / Fragment::merge plumbing (shared with C05: box sides with dashed stretches
+    must merge into one line, otherwise the box is not recognised)"""
+    prog = run.prog
     # ---------------- M1 Line::merge
     lm = prog.method("merge", r"line::Line$", "")
     if not lm:
-        run.missing("C09.M1", "Line::merge")
+        run.missing(R, "Line::merge")
     else:
         b = prog.bodies[lm]
         rets = [strip(r) for r in Expr(prog, lm).returns()]
@@ -180,21 +189,21 @@ def run(run):
                     return x[0] == "call" and x[1].endswith("cmp::" + fn) and \
                         {str(strip(x[2][0])), str(strip(x[2][1]))} == {str(("param", 1, (field,))), str(("param", 2, (field,)))}
                 if minmax(s, "min", "start"):
-                    run.ok("C09.M1", "merged start = min(self.start, other.start)", where(b))
+                    run.ok(R, "merged start = min(self.start, other.start)", where(b))
                 else:
-                    run.bad("C09.M1", "merge-start", where(b), "merged line starts at `%s`, expected min of both starts" % expr_str(s))
+                    run.bad(R, "merge-start", where(b), "merged line starts at `%s`, expected min of both starts" % expr_str(s))
                 if minmax(e, "max", "end"):
-                    run.ok("C09.M1", "merged end = max(self.end, other.end)", where(b))
+                    run.ok(R, "merged end = max(self.end, other.end)", where(b))
                 else:
-                    run.bad("C09.M1", "merge-end", where(b), "merged line ends at `%s`, expected max of both ends" % expr_str(e))
+                    run.bad(R, "merge-end", where(b), "merged line ends at `%s`, expected max of both ends" % expr_str(e))
             else:
-                run.bad("C09.M1", "merge-shape", where(b), "Line::merge does not build Line::new(start, end, broken): %s" % expr_str(some[0])[:140])
+                run.bad(R, "merge-shape", where(b), "Line::merge does not build Line::new(start, end, broken): %s" % expr_str(some[0])[:140])
         else:
-            run.bad("C09.M1", "merge-shape", where(b), "Line::merge returns %s" % " | ".join(expr_str(r)[:60] for r in rets))
+            run.bad(R, "merge-shape", where(b), "Line::merge returns %s" % " | ".join(expr_str(r)[:60] for r in rets))
         # `||` is control flow in MIR: read it from the syntax tree
         it = src_fn(run, "fragment/line.rs", "merge", impl_self="Line")
         if it is None:
-            run.missing("C09.M1", "source of Line::merge")
+            run.missing(R, "source of Line::merge")
         else:
             calls = find_nodes(it["body"], lambda n: n.get("k") == "call" and n["func"].get("path", "").endswith("Line::new") and len(n["args"]) == 3)
             fld = lambda n: (n.get("k") == "field" and n["base"].get("k") == "path" and (n["base"]["path"], n["member"]))
@@ -207,17 +216,17 @@ def run(run):
                     if ops == {("self", "is_broken"), (params[0] if params else "other", "is_broken")}:
                         ok = True
             if ok:
-                run.ok("C09.M1", "merged line is dashed iff self.is_broken || other.is_broken", "%s:%d" % (it["_file"], it["pos"][0]))
+                run.ok(R, "merged line is dashed iff self.is_broken || other.is_broken", "%s:%d" % (it["_file"], it["pos"][0]))
             else:
-                run.bad("C09.M1", "merge-dashed", "%s:%d" % (it["_file"], it["pos"][0]), "the dashed flag of a merged line is not `self.is_broken || other.is_broken`")
+                run.bad(R, "merge-dashed", "%s:%d" % (it["_file"], it["pos"][0]), "the dashed flag of a merged line is not `self.is_broken || other.is_broken`")
         # guarded by can_merge
         cm = prog.method("can_merge", r"line::Line$", "")
         if cm:
             g = [t for _, t in prog.calls(lm) if Program.callee_name(t) == cm]
             if g:
-                run.ok("C09.M1", "merge is guarded by can_merge", where(g[0]), nontrivial=False)
+                run.ok(R, "merge is guarded by can_merge", where(g[0]), nontrivial=False)
             else:
-                run.bad("C09.M1", "merge-unguarded", where(b), "Line::merge does not consult can_merge")
+                run.bad(R, "merge-unguarded", where(b), "Line::merge does not consult can_merge")
             it = src_fn(run, "fragment/line.rs", "can_merge", impl_self="Line")
             if it is not None:
                 txt = []
@@ -242,14 +251,16 @@ def run(run):
                     elif t.get("k") == "call":
                         last = t["args"][-1]
                         names.append((t["func"].get("path", "").split("::")[-1], last["expr"]["member"] if last.get("k") == "ref" and False else (last.get("e", last).get("member"))))
+                    else:
+                        names.append(("<other condition>", t.get("k")))
                 want = {("is_touching", None), ("is_collinear", "start"), ("is_collinear", "end")}
                 if set(names) == want:
-                    run.ok("C09.M1", "can_merge = touching && collinear(other.start) && collinear(other.end)", "%s:%d" % (it["_file"], it["pos"][0]))
+                    run.ok(R, "can_merge = touching && collinear(other.start) && collinear(other.end)", "%s:%d" % (it["_file"], it["pos"][0]))
                 else:
-                    run.bad("C09.M1", "can-merge-shape", "%s:%d" % (it["_file"], it["pos"][0]),
+                    run.bad(R, "can-merge-shape", "%s:%d" % (it["_file"], it["pos"][0]),
                             "can_merge is %s; expected is_touching && is_collinear(.., other.start) && is_collinear(.., other.end)" % sorted(names, key=str))
         else:
-            run.missing("C09.M1", "Line::can_merge")
+            run.missing(R, "Line::can_merge")
     fm = prog.method("merge", r"fragment::Fragment$", r"Merge$")
     if fm:
         ex = Expr(prog, fm)
@@ -258,18 +269,22 @@ def run(run):
             if mentions(r, lambda z: z[0] == "call" and z[1] == lm and "@Line" in strip(z[2][0])[2] and "@Line" in strip(z[2][1])[2]):
                 hit = True
         if hit:
-            run.ok("C09.M1", "Fragment::merge maps (Line, Line) to Line::merge", where(prog.bodies[fm]))
+            run.ok(R, "Fragment::merge maps (Line, Line) to Line::merge", where(prog.bodies[fm]))
         else:
-            run.bad("C09.M1", "fragment-merge-dispatch", where(prog.bodies[fm]), "Fragment::merge no longer merges two lines with Line::merge")
+            run.bad(R, "fragment-merge-dispatch", where(prog.bodies[fm]), "Fragment::merge no longer merges two lines with Line::merge")
     else:
-        run.missing("C09.M1", "Fragment::merge")
+        run.missing(R, "Fragment::merge")
     fsm = prog.method("merge", r"fragment_span::FragmentSpan$", r"Merge$")
     if fsm:
         calls = [Program.callee_name(t) for _, t in prog.calls(fsm)]
         if fm in calls:
-            run.ok("C09.M1", "FragmentSpan::merge merges the fragments with Fragment::merge", where(prog.bodies[fsm]), nontrivial=False)
+            run.ok(R, "FragmentSpan::merge merges the fragments with Fragment::merge", where(prog.bodies[fsm]), nontrivial=False)
         else:
-            run.bad("C09.M1", "fragment-span-merge", where(prog.bodies[fsm]), "FragmentSpan::merge does not call Fragment::merge")
+            run.bad(R, "fragment-span-merge", where(prog.bodies[fsm]), "FragmentSpan::merge does not call Fragment::merge")
+
+
+def m2_rules(run):
+    prog = run.prog
     # ---------------- M2 fixpoint before grouping
     mr = [p for p in prog.bodies if p.endswith("merge::Merge::merge_recursive")]
     sp = [p for p in prog.bodies if p.endswith("merge::Merge::second_pass_merge")]
